@@ -220,6 +220,16 @@ func Build(specs []GenSpec) []gengo.Generator {
 				case "skip":
 					return gengo.ErrSkip
 				}
+			case "bad-syntax-tail":
+				// the unparseable construct is the very LAST thing rendered (from the last registered deferred callback)
+				// and does not end in a newline: the syntax error sits on the last line of the assembled source
+				render(c, bh, name)
+				if idx == bh.At {
+					c.Defer(func(c gengo.Context) error {
+						c.Render(snippet.Block([]string{"func Broken(", "\tvar (", "type T struct {", "var s = \"unterminated"}[bh.At%4]))
+						return nil
+					})
+				}
 			case "bad-syntax":
 				render(c, bh, name)
 				if idx == bh.At {
